@@ -5,6 +5,30 @@ import json, os
 HERE = os.path.dirname(os.path.abspath(__file__))
 
 CHECKS = {
+ "C01": dict(level="model_checking", ref="DESIGN.md §5 C01",
+   technique="deviation-bounded exhaustive enumeration of projects + explicit-state BFS of a builder machine, save/load round trip as per-state oracle",
+   text="Every project with at most one deviation from the default (each project field x width corners, 146 names placing a 1-4 byte character at every offset around the 32-byte limit, every pattern/clone/empty sequence of length <= 3, every NOTECMD and 16-bit corner in note cells, each of 42 module types x every single deviation of its controllers/options/common fields/MIDI bindings/payload arrays, linked type pairs) and every state of a builder machine (attach/empty slot/connect/disconnect/pattern/note/field/controller ops, depth 5 quick / 6 thorough) is saved and loaded; the loaded snapshot must equal the original and the load must not raise.",
+   note="Trusted: rvmc.snapshot lists every serialised public attribute; names compare up to the documented 32-byte prefix; sunvox_version (writer version) is not varied. Bounded as stated; k=2 only for module-type pairs."),
+ "C02": dict(level="exploration", ref="DESIGN.md §5 C02",
+   technique="deviation-bounded exhaustive input enumeration (k=1 quick, k=2 thorough) on the real writers/readers",
+   text="For each of the 42 non-Output types the default module and every single deviation (every controller x boundary alphabet, every enum member, unit-dependent ranges under every unit, every option value, common fields at documented corners, MIDI bindings, every array element spike and fill pattern) goes through Synth write/read, Module.clone() and Project write/read; snapshots must be equal per context and across contexts; thorough adds every compatible pair of deviations within a type. Synth(None) must refuse to serialise.",
+   note="Trusted: rvmc.snapshot; N8 (placement/links not in sunsynth files). Exhaustive inside the stated deviation bound and alphabets only."),
+ "C09": dict(level="exploration", ref="DESIGN.md §5 C09",
+   technique="complete boundary enumeration of (controller, mode, assignment sequence of length <= 2)",
+   text="All 43 types x 502 specified controllers (list from the YAML): default value and type vs the spec; every boundary/interior/out-of-range value, every enum member as member/int/name plus invalid names and values, booleans; strict and lenient mode; attribute and constructor paths; every ordered pair (v1, v2) so that a rejected assignment is checked against every previous value; a failed assignment must leave the whole module snapshot unchanged.",
+   note="Ground truth is the YAML. Unit-dependent ranges are not 'fixed ranges' (warn-only by design). Values are boundary-complete, not every integer (C10 does that)."),
+ "C10": dict(level="exploration", ref="DESIGN.md §5 C10",
+   technique="complete enumeration of the finite domain (3.6 million controller/value pairs)",
+   text="Every integer of every range of every specified controller (every unit variant), every enum member, both booleans: value -> stored -> value is the identity, stored = v - min iff min < 0 (no-offset kind: v), never negative, injective; pattern-column value non-decreasing with min -> 0 and max -> 0x8000, compact kind v - min. The whole domain is enumerated in both tiers.",
+   note="Ground truth for kinds/bounds is the YAML. MetaModule proxy controllers are handled in C15."),
+ "C11": dict(level="exploration", ref="DESIGN.md §5 C11",
+   technique="complete enumeration of option values and value pairs + bounded exhaustive assignment sequences",
+   text="All 49 options of the 5 option-bearing types: static bit-range disjointness (YAML and classes); every representable value of every option with every value of every other option (both orders, both writers) reads back after save/load and sits at its declared bits in the written record (decoded independently by rvref), inverted options stored complemented, record covers the highest byte, no stray bits; 2^6 joint-assignment windows; all assignment sequences up to depth 3 (4 thorough) over exclusive/inverted options never leave two exclusive options on; every integer -2..258 on bounded options reads back clamped.",
+   note="Trusted: rvref.codec chunk parser, YAML option table. Switching an exclusive partner off when an option is switched OFF is neither demanded nor forbidden."),
+ "C13": dict(level="exploration", ref="DESIGN.md §5 C13",
+   technique="complete comparison of two finite tables + regeneration of generated sources",
+   text="Every field the property names (registration, class name, group, default flags, controller order/number/kind/bounds/enum members/default/unit tables, option byte/bit/size/number/default/inversion/exclusivity/bounds/chunk number, array chunks) is compared for all 43 types / 502 controllers / 49 options between the imported classes and the YAML read independently of the generator; all 43 base files are regenerated from the working tree's generator and must be byte-identical to the checked-in files.",
+   note="The YAML is the ground truth; genrv/black/isort as installed are used for regeneration."),
  "C07": dict(level="model_checking", ref="DESIGN.md §5 C07",
    technique="explicit-state BFS over the real Project.connect with a lock-step reference model (bounded model checking of the implementation)",
    text="Every state of a 4-module project reachable by single-operand connect/disconnect requests up to depth 5 (thorough 6), and by the full list/~ alphabet up to depth 2 (thorough 3), satisfies the mutual-consistency invariants I1-I4, and on every transition the connection set equals the reference model's; operator sugar is checked against its method form from every state of depth <= 2; requests naming a foreign module must be refused. Exhaustive within those bounds, nothing sampled.",
